@@ -8,20 +8,40 @@
 //! coq/Loop/World.v (`tev`).
 //!
 //! stdin, one scenario per line:
-//!   actors: <cfg> ; <cfg> ... | msgs: <id>=<script> ; ... | ops: <op> ; <op> ...
+//!   [mode: send|local-adapter|local-native |] actors: <cfg> ; <cfg> ... | msgs: <id>=<script> ; ... | ops: <op> ; <op> ...
 //!   cfg    = pre=<script> ps=<script> stop=<script> sup=def|<script> link=-|<n>
 //!   script = <eff>,<eff>,.../ok | /e<k> | /p<k>      (no effects: "/ok")
 //!   eff    = g<n> | t | s<a>:<m> | x<a>:n | x<a>:<r> | k<a> | d<a>
 //!   op     = spawn <a> | send <a> <m> | stop <a> n|<r> | kill <a> | drain <a> | open <g> | abort <a> | settle
+//!
+//! Modes (default `send` = everything above, on the one paused runtime):
+//!   local-adapter  every scripted actor is a Send `Actor + Default` (`HL`) hosted on ONE shared
+//!                  `ThreadLocalActorSpawner` through the blanket adapter
+//!                  `impl<T: Actor + Default> ThreadLocalActor for T` (ractor/src/thread_local.rs);
+//!   local-native   the same scripts behind a native `ThreadLocalActor` impl (`HN`, non-Send state).
+//! In the local modes the actors run on the spawner's own OS thread (unpaused current_thread
+//! runtime + LocalSet) while the driver, the `start()` futures of `spawn_instant` and the join
+//! watchers stay on the paused main runtime.  The two threads never run at the same time: see
+//! `Local` below (freezer + /proc quiescence barrier) and docs/notes/C01-threadlocal.md.
 use std::collections::HashMap;
-use std::sync::atomic::{AtomicBool, Ordering};
-use std::sync::{Arc, Mutex};
-use std::time::Duration;
+use std::rc::Rc;
+use std::sync::atomic::{AtomicBool, AtomicU64, Ordering};
+use std::sync::{Arc, Condvar, Mutex};
+use std::time::{Duration, Instant};
 
-use ractor::{Actor, ActorCell, ActorId, ActorProcessingErr, ActorRef, SupervisionEvent};
+use ractor::thread_local::{ThreadLocalActor, ThreadLocalActorSpawner};
+use ractor::{Actor, ActorCell, ActorId, ActorProcessingErr, ActorRef, SpawnErr, SupervisionEvent};
 use rv_harness::*;
 use tokio::sync::Notify;
-use tokio::task::AbortHandle;
+use tokio::task::{AbortHandle, JoinHandle};
+
+/// Bumped by every logged event and by every harness operation on a channel of the system
+/// under test (cast / stop / kill / drain / gate / abort).  Only read by the quiescence barrier
+/// of the local modes, as one more thing that must stand still.
+static ACTIVITY: AtomicU64 = AtomicU64::new(0);
+fn touch() {
+    ACTIVITY.fetch_add(1, Ordering::SeqCst);
+}
 
 #[derive(Clone, Debug)]
 enum Eff {
@@ -67,6 +87,7 @@ struct Ctx {
 
 impl Ctx {
     fn log(&self, s: String) {
+        touch();
         let mut t = self.trace.lock().unwrap();
         t.push(s);
         if t.len() > 20000 {
@@ -166,6 +187,7 @@ async fn run_script(ctx: &Arc<Ctx>, me: usize, cb: String, script: &Script) -> R
             Eff::Tick => ctx.log(format!("TTick {me}")),
             Eff::Send(a, m) => {
                 if let Some(c) = ctx.cell(*a) {
+                    touch();
                     let r = ActorRef::<HMsg>::from(c).cast(HMsg(*m));
                     ctx.log(format!("TSent {a} {m} {}", coq_bool(r.is_ok())));
                 }
@@ -202,40 +224,36 @@ async fn run_script(ctx: &Arc<Ctx>, me: usize, cb: String, script: &Script) -> R
 struct HMsg(u64);
 impl ractor::Message for HMsg {}
 
-struct H {
+/// One scripted actor's identity and scripts; the callback bodies are shared by the three hosts
+/// (`H`: Send actor, `HL`: Send actor behind the thread-local adapter, `HN`: native thread-local).
+#[derive(Clone)]
+struct Me {
     ctx: Arc<Ctx>,
     me: usize,
     cfg: Cfg,
 }
 
-#[cfg_attr(feature = "async-trait", ractor::async_trait)]
-impl Actor for H {
-    type Msg = HMsg;
-    type State = ();
-    type Arguments = ();
-
-    async fn pre_start(&self, _myself: ActorRef<HMsg>, _: ()) -> Result<(), ActorProcessingErr> {
+impl Me {
+    async fn cb_pre_start(&self) -> Result<(), ActorProcessingErr> {
         run_script(&self.ctx, self.me, "PreStart".into(), &self.cfg.pre).await
     }
-    async fn post_start(&self, _myself: ActorRef<HMsg>, _: &mut ()) -> Result<(), ActorProcessingErr> {
+    async fn cb_post_start(&self) -> Result<(), ActorProcessingErr> {
         run_script(&self.ctx, self.me, "PostStart".into(), &self.cfg.ps).await
     }
-    async fn post_stop(&self, _myself: ActorRef<HMsg>, _: &mut ()) -> Result<(), ActorProcessingErr> {
+    async fn cb_post_stop(&self) -> Result<(), ActorProcessingErr> {
         run_script(&self.ctx, self.me, "PostStop".into(), &self.cfg.stop).await
     }
-    async fn handle(&self, _myself: ActorRef<HMsg>, msg: HMsg, _: &mut ()) -> Result<(), ActorProcessingErr> {
+    async fn cb_handle(&self, msg: HMsg) -> Result<(), ActorProcessingErr> {
         let empty = Script(vec![], Fin::Ok);
         let script = self.ctx.msgs.get(&msg.0).unwrap_or(&empty).clone();
         run_script(&self.ctx, self.me, format!("(Handle {})", msg.0), &script).await
     }
-    async fn handle_supervisor_evt(
-        &self,
-        _myself: ActorRef<HMsg>,
-        evt: SupervisionEvent,
-        _: &mut (),
-    ) -> Result<(), ActorProcessingErr> {
+    async fn cb_sup(&self, evt: SupervisionEvent) -> Result<(), ActorProcessingErr> {
         let (name, terminal) = match &evt {
             SupervisionEvent::ActorStarted(who) => (format!("(SStarted {})", self.ctx.index_of(who.get_id())), false),
+            // the state flag is logged as delivered: always `false` for thread-local children
+            // (their state is not Send and is never boxed, thread_local/inner.rs); the local
+            // oracle check_C04_local (coq/Loop/LocalChecks.v) accounts for that, not this log
             SupervisionEvent::ActorTerminated(who, st, reason) => (
                 format!(
                     "(STerminated {} {} {})",
@@ -263,6 +281,104 @@ impl Actor for H {
                 run_script(&self.ctx, self.me, format!("(Sup {name})"), &s).await
             }
         }
+    }
+}
+
+/// mode `send`: an ordinary Send actor on the paused main runtime
+struct H(Me);
+
+#[cfg_attr(feature = "async-trait", ractor::async_trait)]
+impl Actor for H {
+    type Msg = HMsg;
+    type State = ();
+    type Arguments = ();
+
+    async fn pre_start(&self, _myself: ActorRef<HMsg>, _: ()) -> Result<(), ActorProcessingErr> {
+        self.0.cb_pre_start().await
+    }
+    async fn post_start(&self, _myself: ActorRef<HMsg>, _: &mut ()) -> Result<(), ActorProcessingErr> {
+        self.0.cb_post_start().await
+    }
+    async fn post_stop(&self, _myself: ActorRef<HMsg>, _: &mut ()) -> Result<(), ActorProcessingErr> {
+        self.0.cb_post_stop().await
+    }
+    async fn handle(&self, _myself: ActorRef<HMsg>, msg: HMsg, _: &mut ()) -> Result<(), ActorProcessingErr> {
+        self.0.cb_handle(msg).await
+    }
+    async fn handle_supervisor_evt(
+        &self,
+        _myself: ActorRef<HMsg>,
+        evt: SupervisionEvent,
+        _: &mut (),
+    ) -> Result<(), ActorProcessingErr> {
+        self.0.cb_sup(evt).await
+    }
+}
+
+/// mode `local-adapter`: a Send actor that is `Default` (the handler is created on the spawner
+/// thread by `T::default()`, so everything per-actor travels in Arguments / State) and is hosted
+/// through ractor's blanket `impl<T: Actor + Default> ThreadLocalActor for T`.
+#[derive(Default)]
+struct HL;
+
+#[cfg_attr(feature = "async-trait", ractor::async_trait)]
+impl Actor for HL {
+    type Msg = HMsg;
+    type State = Me;
+    type Arguments = Me;
+
+    async fn pre_start(&self, _myself: ActorRef<HMsg>, me: Me) -> Result<Me, ActorProcessingErr> {
+        me.cb_pre_start().await?;
+        Ok(me)
+    }
+    async fn post_start(&self, _myself: ActorRef<HMsg>, me: &mut Me) -> Result<(), ActorProcessingErr> {
+        me.cb_post_start().await
+    }
+    async fn post_stop(&self, _myself: ActorRef<HMsg>, me: &mut Me) -> Result<(), ActorProcessingErr> {
+        me.cb_post_stop().await
+    }
+    async fn handle(&self, _myself: ActorRef<HMsg>, msg: HMsg, me: &mut Me) -> Result<(), ActorProcessingErr> {
+        me.cb_handle(msg).await
+    }
+    async fn handle_supervisor_evt(
+        &self,
+        _myself: ActorRef<HMsg>,
+        evt: SupervisionEvent,
+        me: &mut Me,
+    ) -> Result<(), ActorProcessingErr> {
+        me.cb_sup(evt).await
+    }
+}
+
+/// mode `local-native`: a native ThreadLocalActor; its state is deliberately not Send
+#[derive(Default)]
+struct HN;
+
+impl ThreadLocalActor for HN {
+    type Msg = HMsg;
+    type State = (Me, Rc<()>);
+    type Arguments = Me;
+
+    async fn pre_start(&self, _myself: ActorRef<HMsg>, me: Me) -> Result<Self::State, ActorProcessingErr> {
+        me.cb_pre_start().await?;
+        Ok((me, Rc::new(())))
+    }
+    async fn post_start(&self, _myself: ActorRef<HMsg>, st: &mut Self::State) -> Result<(), ActorProcessingErr> {
+        st.0.cb_post_start().await
+    }
+    async fn post_stop(&self, _myself: ActorRef<HMsg>, st: &mut Self::State) -> Result<(), ActorProcessingErr> {
+        st.0.cb_post_stop().await
+    }
+    async fn handle(&self, _myself: ActorRef<HMsg>, msg: HMsg, st: &mut Self::State) -> Result<(), ActorProcessingErr> {
+        st.0.cb_handle(msg).await
+    }
+    async fn handle_supervisor_evt(
+        &self,
+        _myself: ActorRef<HMsg>,
+        evt: SupervisionEvent,
+        st: &mut Self::State,
+    ) -> Result<(), ActorProcessingErr> {
+        st.0.cb_sup(evt).await
     }
 }
 
@@ -333,13 +449,281 @@ async fn settle() {
     tokio::time::sleep(Duration::from_nanos(1)).await;
 }
 
+// ------------------------------------------------------------------------------------------
+// local modes: two OS threads, of which only one runs at any time
+//
+// * Between two `settle`s the spawner thread is FROZEN: a harness task on its LocalSet (the
+//   freezer, installed by the bootstrap actor `Boot`) blocks the whole thread in a std Condvar.
+//   The driver's operations therefore only enqueue wake-ups, exactly as on the single paused
+//   runtime of mode `send`; nothing of the system under test runs concurrently with the driver.
+// * `settle` alternates: (A) main runtime alone, spawner still frozen (`sleep(1ns)` on the paused
+//   clock: every main task - the start() futures of spawn_instant, the join watchers - runs
+//   until blocked); (B) spawner alone: unfreeze and wait until it is idle (`wait_idle`, below),
+//   the driver thread meanwhile only samples /proc and polls no main task; (C) main again while
+//   the spawner is idle but not frozen; if the spawner's kernel scheduling counters did not move
+//   during (C), nothing was woken on either side after both went idle: the system is quiescent,
+//   the spawner is frozen again and settle returns.  Otherwise the round is repeated.
+// * `wait_idle`: every thread of this process other than the driver's must be in state `S`
+//   (/proc/self/task/<tid>/stat) with identical scheduling counters (schedstat: cpu ns, wait ns,
+//   times scheduled; status: voluntary / involuntary context switches), identical ACTIVITY and
+//   identical trace length in 3 consecutive samples.  A thread that is runnable but starved
+//   (load) is `R`, not `S`; one that ran in between has moved its counters.  No wall-clock guess
+//   decides anything; the only clock is the overall bound whose expiry is an infrastructure
+//   failure (exit code 3), never a verdict.
+
+#[derive(Clone, Copy, PartialEq, Debug)]
+enum Mode {
+    Send,
+    LocalAdapter,
+    LocalNative,
+}
+
+fn infra(msg: &str) -> ! {
+    eprintln!("eng_world: INFRASTRUCTURE: {msg}");
+    std::process::exit(3);
+}
+
+struct FState {
+    frozen: bool,
+    release: bool,
+}
+struct Freezer {
+    m: Mutex<FState>,
+    cv: Condvar,
+}
+
+struct BootArgs {
+    rx: tokio::sync::mpsc::UnboundedReceiver<()>,
+    fz: Arc<Freezer>,
+}
+
+/// Puts the freezer task on the spawner's LocalSet (the only public way onto that thread is a
+/// thread-local actor's pre_start); the actor itself is stopped right away.
+#[derive(Default)]
+struct Boot;
+
+impl ThreadLocalActor for Boot {
+    type Msg = HMsg;
+    type State = ();
+    type Arguments = BootArgs;
+
+    async fn pre_start(&self, _myself: ActorRef<HMsg>, a: BootArgs) -> Result<(), ActorProcessingErr> {
+        tokio::task::spawn_local(async move {
+            let BootArgs { mut rx, fz } = a;
+            while rx.recv().await.is_some() {
+                let mut g = fz.m.lock().unwrap();
+                g.frozen = true;
+                fz.cv.notify_all();
+                while !g.release {
+                    g = fz.cv.wait(g).unwrap();
+                }
+                g.release = false;
+                g.frozen = false;
+            }
+        });
+        Ok(())
+    }
+}
+
+type Threads = Vec<(u64, String)>;
+
+struct Local {
+    spawner: ThreadLocalActorSpawner,
+    tx: tokio::sync::mpsc::UnboundedSender<()>,
+    fz: Arc<Freezer>,
+    own: String,
+    limit: Duration,
+    frozen: std::cell::Cell<bool>,
+}
+
+impl Local {
+    async fn new() -> Local {
+        let own = std::fs::read_link("/proc/thread-self")
+            .ok()
+            .and_then(|p| p.file_name().map(|x| x.to_string_lossy().to_string()))
+            .unwrap_or_else(|| infra("cannot read /proc/thread-self"));
+        let limit = Duration::from_millis(
+            std::env::var("RV_SETTLE_TIMEOUT_MS").ok().and_then(|x| x.parse().ok()).unwrap_or(10_000),
+        );
+        // the previous case's spawner thread must be gone: its exit would otherwise be seen as
+        // "not idle" by this case's barrier and cost extra rounds (a different, equally legal,
+        // schedule: LocalSet alternates between its local and remote queues by poll count)
+        let t0 = Instant::now();
+        while std::fs::read_dir("/proc/self/task").map(|d| d.count()).unwrap_or(1) > 1 {
+            if t0.elapsed() > limit {
+                infra("a thread of the previous case is still alive");
+            }
+            std::thread::sleep(Duration::from_micros(100));
+        }
+        let spawner = ThreadLocalActorSpawner::new();
+        let (tx, rx) = tokio::sync::mpsc::unbounded_channel();
+        let fz = Arc::new(Freezer {
+            m: Mutex::new(FState {
+                frozen: false,
+                release: false,
+            }),
+            cv: Condvar::new(),
+        });
+        let l = Local {
+            spawner,
+            tx,
+            fz: fz.clone(),
+            own,
+            limit,
+            frozen: std::cell::Cell::new(false),
+        };
+        // Every cross-thread step of the bootstrap is taken only when the spawner thread is parked,
+        // so that the number of polls of its LocalSet (which decides how it alternates between its
+        // two run queues) is the same in every run of a scenario.
+        let deadline = Instant::now() + limit;
+        l.wait_idle(None, deadline);
+        let (boot, _h) = ractor::spawn_local::<Boot>(BootArgs { rx, fz }, l.spawner.clone())
+            .await
+            .unwrap_or_else(|e| infra(&format!("bootstrap actor: {e}")));
+        l.wait_idle(None, deadline);
+        l.freeze(deadline);
+        boot.stop(None); // takes effect in the first settle
+        l
+    }
+
+    fn freeze(&self, deadline: Instant) {
+        if self.frozen.get() {
+            return;
+        }
+        if self.tx.send(()).is_err() {
+            infra("freezer task is gone");
+        }
+        let mut g = self.fz.m.lock().unwrap();
+        while !g.frozen {
+            let (g2, _) = self.fz.cv.wait_timeout(g, Duration::from_millis(50)).unwrap();
+            g = g2;
+            if !g.frozen && Instant::now() > deadline {
+                infra("spawner thread did not reach the freezer within the bound");
+            }
+        }
+        self.frozen.set(true);
+    }
+
+    fn unfreeze(&self) {
+        if !self.frozen.get() {
+            return;
+        }
+        let mut g = self.fz.m.lock().unwrap();
+        g.release = true;
+        self.fz.cv.notify_all();
+        drop(g);
+        self.frozen.set(false);
+    }
+
+    /// None: some other thread is not sleeping (or appeared / vanished while being read)
+    fn sample(&self) -> Option<Threads> {
+        let mut v: Threads = vec![];
+        for e in std::fs::read_dir("/proc/self/task").ok()? {
+            let name = e.ok()?.file_name().to_string_lossy().to_string();
+            if name == self.own {
+                continue;
+            }
+            let base = format!("/proc/self/task/{name}");
+            let stat = std::fs::read_to_string(format!("{base}/stat")).ok()?;
+            let state = stat[stat.rfind(')')? + 1..].trim_start().chars().next()?;
+            if state != 'S' {
+                return None;
+            }
+            // counters are read AFTER the state (see the note: a run that ended before the state
+            // was read is in the counters; one that started after it changes them for the next sample)
+            let sched = std::fs::read_to_string(format!("{base}/schedstat")).unwrap_or_default();
+            let status = std::fs::read_to_string(format!("{base}/status")).ok()?;
+            let cs: Vec<&str> = status.lines().filter(|l| l.contains("ctxt_switches")).collect();
+            if cs.len() != 2 {
+                return None;
+            }
+            v.push((name.parse().ok()?, format!("{} {}", sched.trim(), cs.join(" "))));
+        }
+        v.sort();
+        Some(v)
+    }
+
+    fn pause(busy: bool) {
+        std::thread::yield_now();
+        std::thread::sleep(Duration::from_micros(if busy { 200 } else { 40 }));
+    }
+
+    fn wait_idle(&self, ctx: Option<&Ctx>, deadline: Instant) -> Threads {
+        let mut last: Option<(Threads, u64, usize)> = None;
+        let mut n = 0;
+        loop {
+            let cur = self
+                .sample()
+                .map(|t| (t, ACTIVITY.load(Ordering::SeqCst), ctx.map(|c| c.trace.lock().unwrap().len()).unwrap_or(0)));
+            let busy = cur.is_none();
+            match cur {
+                Some(c) => {
+                    if last.as_ref() == Some(&c) {
+                        n += 1;
+                    } else {
+                        last = Some(c);
+                        n = 1;
+                    }
+                    if n >= 3 {
+                        return last.unwrap().0;
+                    }
+                }
+                None => {
+                    last = None;
+                    n = 0;
+                }
+            }
+            if Instant::now() > deadline {
+                infra("the spawner thread did not become idle within the bound (RV_SETTLE_TIMEOUT_MS)");
+            }
+            Self::pause(busy);
+        }
+    }
+
+    async fn settle(&self, ctx: &Ctx) {
+        let deadline = Instant::now() + self.limit;
+        loop {
+            // (A) main alone
+            tokio::time::sleep(Duration::from_nanos(1)).await;
+            // (B) spawner alone
+            self.unfreeze();
+            let idle = self.wait_idle(Some(ctx), deadline);
+            // (C) main again; did it (or anything) wake the spawner?
+            tokio::time::sleep(Duration::from_nanos(1)).await;
+            let mut quiet = self.sample().as_ref() == Some(&idle);
+            if quiet {
+                Self::pause(false);
+                quiet = self.sample().as_ref() == Some(&idle);
+            }
+            self.freeze(deadline);
+            if quiet {
+                return;
+            }
+        }
+    }
+
+    fn finish(self) {
+        self.unfreeze();
+        // dropping tx ends the freezer task, dropping the spawner ends the spawn loop: the
+        // thread exits once every local task has finished
+    }
+}
+
 async fn run_case(line: &str) -> String {
     let mut actors: Vec<Cfg> = vec![];
     let mut msgs: HashMap<u64, Script> = HashMap::new();
     let mut ops: Vec<String> = vec![];
+    let mut mode = Mode::Send;
     for sec in line.split('|') {
         let sec = sec.trim();
-        if let Some(r) = sec.strip_prefix("actors:") {
+        if let Some(r) = sec.strip_prefix("mode:") {
+            mode = match r.trim() {
+                "send" => Mode::Send,
+                "local-adapter" => Mode::LocalAdapter,
+                "local-native" => Mode::LocalNative,
+                other => panic!("unknown mode {other}"),
+            };
+        } else if let Some(r) = sec.strip_prefix("actors:") {
             actors = r.split(';').map(|x| x.trim()).filter(|x| !x.is_empty()).map(parse_cfg).collect();
         } else if let Some(r) = sec.strip_prefix("msgs:") {
             for kv in r.split(';').map(|x| x.trim()).filter(|x| !x.is_empty()) {
@@ -359,6 +743,7 @@ async fn run_case(line: &str) -> String {
         start_abort: Mutex::new(HashMap::new()),
         loop_abort: Mutex::new(HashMap::new()),
     });
+    let local = if mode == Mode::Send { None } else { Some(Local::new().await) };
     for op in &ops {
         let w: Vec<&str> = op.split_whitespace().collect();
         match w[0] {
@@ -368,7 +753,7 @@ async fn run_case(line: &str) -> String {
                     continue;
                 }
                 let cfg = actors[a].clone();
-                let h = H {
+                let me = Me {
                     ctx: ctx.clone(),
                     me: a,
                     cfg: cfg.clone(),
@@ -376,10 +761,32 @@ async fn run_case(line: &str) -> String {
                 let sup = cfg.link.and_then(|s| ctx.cell(s));
                 // spawn_linked to a supervisor that does not exist yet: treated as unlinked is NOT
                 // what the model does, so generators only link to already spawned actors.
-                let res = match sup {
-                    Some(s) => ractor::ActorRuntime::<H>::spawn_linked_instant(None, h, (), s),
-                    None => ractor::ActorRuntime::<H>::spawn_instant(None, h, ()),
-                };
+                touch();
+                let res: Result<(ActorRef<HMsg>, JoinHandle<Result<JoinHandle<()>, SpawnErr>>), SpawnErr> =
+                    match (mode, sup) {
+                        (Mode::Send, Some(s)) => ractor::ActorRuntime::<H>::spawn_linked_instant(None, H(me), (), s),
+                        (Mode::Send, None) => ractor::ActorRuntime::<H>::spawn_instant(None, H(me), ()),
+                        // thread-local hosts: the cell exists at once, start() runs as a task of the
+                        // main runtime (link, then the builder is shipped to the spawner thread)
+                        (Mode::LocalAdapter, Some(s)) => <HL as ThreadLocalActor>::spawn_linked_instant(
+                            None,
+                            me,
+                            s,
+                            local.as_ref().unwrap().spawner.clone(),
+                        ),
+                        (Mode::LocalAdapter, None) => {
+                            <HL as ThreadLocalActor>::spawn_instant(None, me, local.as_ref().unwrap().spawner.clone())
+                        }
+                        (Mode::LocalNative, Some(s)) => <HN as ThreadLocalActor>::spawn_linked_instant(
+                            None,
+                            me,
+                            s,
+                            local.as_ref().unwrap().spawner.clone(),
+                        ),
+                        (Mode::LocalNative, None) => {
+                            <HN as ThreadLocalActor>::spawn_instant(None, me, local.as_ref().unwrap().spawner.clone())
+                        }
+                    };
                 match res {
                     Ok((aref, start_handle)) => {
                         ctx.cells.lock().unwrap().insert(a, aref.get_cell());
@@ -406,6 +813,7 @@ async fn run_case(line: &str) -> String {
             "send" => {
                 let a = u(w[1]) as usize;
                 if let Some(c) = ctx.cell(a) {
+                    touch();
                     let r = ActorRef::<HMsg>::from(c).cast(HMsg(u(w[2])));
                     ctx.log(format!("TSent {a} {} {}", w[2], coq_bool(r.is_ok())));
                 }
@@ -434,6 +842,7 @@ async fn run_case(line: &str) -> String {
             }
             "open" => {
                 let g = ctx.gate(u(w[1]));
+                touch();
                 g.open.store(true, Ordering::SeqCst);
                 g.notify.notify_waiters();
             }
@@ -449,11 +858,17 @@ async fn run_case(line: &str) -> String {
                     }
                 }
             }
-            "settle" => settle().await,
+            "settle" => match &local {
+                Some(l) => l.settle(&ctx).await,
+                None => settle().await,
+            },
             other => panic!("unknown op {other}"),
         }
     }
-    settle().await;
+    match &local {
+        Some(l) => l.settle(&ctx).await,
+        None => settle().await,
+    }
     // tidy up: kill everything still alive so that nothing leaks into the next case
     let cells: Vec<ActorCell> = ctx.cells.lock().unwrap().values().cloned().collect();
     let out = coq_list(&ctx.trace.lock().unwrap().clone());
@@ -464,7 +879,13 @@ async fn run_case(line: &str) -> String {
     for c in cells {
         c.kill();
     }
-    settle().await;
+    match local {
+        Some(l) => {
+            l.settle(&ctx).await;
+            l.finish();
+        }
+        None => settle().await,
+    }
     out
 }
 
